@@ -1765,7 +1765,10 @@ pub(crate) async fn setup_redirect(
                     };
 
                     if expanded.is_empty() {
-                        // Nothing to do
+                        if dash {
+                            // `N>&-`: close the specified fd. Ignore it if it's not valid.
+                            params.open_files.remove_fd(fd_num);
+                        }
                     } else if expanded.chars().all(|c: char| c.is_ascii_digit()) {
                         let source_fd_num = expanded
                             .parse::<ShellFd>()
@@ -1777,6 +1780,12 @@ pub(crate) async fn setup_redirect(
                         };
 
                         params.open_files.set_fd(fd_num, target_file);
+
+                        if dash && source_fd_num != fd_num {
+                            // `N>&M-` moves the descriptor: close the source now that N refers
+                            // to its file.
+                            params.open_files.remove_fd(source_fd_num);
+                        }
                     } else if fd_num == 1 && !dash {
                         // Special case for compatibility: redirect stdout and stderr to the file
                         // given by `expanded`.
@@ -1785,11 +1794,6 @@ pub(crate) async fn setup_redirect(
                         )?;
                     } else {
                         return Err(error::ErrorKind::InvalidRedirection.into());
-                    }
-
-                    if dash {
-                        // Close the specified fd. Ignore it if it's not valid.
-                        params.open_files.remove_fd(fd_num);
                     }
                 }
 
